@@ -502,7 +502,8 @@ def drv_slice_ll(tier):
         md0, mm0 = numpy.array(model.data), numpy.ma.getmaskarray(model).copy()
         wd, wm, _ = o_fold(md0, mm0)
         sel = ~(wm | dm)
-        if not sel.any():
+        if not sel.any() or float(dd[sel].sum()) <= 0.0:
+            # no jointly unmasked entry, or no data there (optimal scaling 0: multinomial likelihood undefined) - degenerate
             d.case((ci, 'll'), True, dict(ns=list(ns)), nontrivial=False)
             continue
 
